@@ -316,11 +316,30 @@ FN('new_chunked', props=['C03', 'C09'], ret='r', ensures=[('aux.new_chunked', 'r
 FN('new_sized', props=['C04', 'C09'], ret='r', ensures=[('aux.new_sized', 'r.mode == SenderMode::Sized(size) && !r.ended && r.wf()')])
 FN('has_body', props=['C09', 'C17', 'C02'], ret='r', ensures=[('aux.has_body', 'r == !(self.mode is None)')])
 FN('is_chunked', props=['C03', 'C18'], ret='r', ensures=[('aux.is_chunked', 'r == (self.mode is Chunked)')])
-FN('body_header', props=['C02'], ret='r', trusted=True,
+RAW('''
+/// decimal digits parse back to the number and are valid header-value bytes
+pub proof fn lemma_dec_digits(n: nat)
+    ensures dec_str_val(dec_digits(n)) == Some(n), dec_digits(n).len() >= 1, crate::http::valid_value(dec_digits(n)),
+        forall|i: int| 0 <= i < dec_digits(n).len() ==> 48 <= #[trigger] dec_digits(n)[i] <= 57
+    decreases n
+{
+    if n >= 10 {
+        Self::lemma_dec_digits(n / 10);
+        let d = dec_digits(n);
+        assert(d.subrange(0, d.len() - 1) =~= dec_digits(n / 10));
+        assert(d[d.len() - 1] == (48 + n % 10) as u8);
+    }
+}
+''')
+FN('body_header', props=['C02'], ret='r',
    requires=[('aux.body_header.has_mode', '!(self.mode is None)')],
-   ensures=[('assumed.body_header', '''match self.mode {
+   ensures=[('C02.body_header_states_the_framing', '''match self.mode {
             SenderMode::Sized(n) => r.0.view() == str_bytes("content-length") && parse_dec_u64(r.1.view()) == Some(n) && crate::http::valid_value(r.1.view()),
-            _ => r.0.view() == str_bytes("transfer-encoding") && r.1.view() == str_bytes("chunked") }''')])
+            _ => r.0.view() == str_bytes("transfer-encoding") && r.1.view() == str_bytes("chunked") }''')],
+   rewrites=[('N9', 'HeaderValue::from_str(&size.to_string())', 'HeaderValue::from_str(crate::u64_to_string(size).as_str())')],
+   before=[('HeaderName::from_static("content-length"),', None)] if False else [],
+   head='proof { if let SenderMode::Sized(n) = self.mode { Self::lemma_dec_digits(n as nat); } }',
+   )
 FN('is_ended', props=['C03', 'C04', 'C09'], ret='r', ensures=[('aux.is_ended', 'r == self.ended')])
 FN('left_to_send', props=['C04'], ret='r', ensures=[('aux.left_to_send', 'r == self.left()')])
 
